@@ -98,6 +98,8 @@ def generate(rng, tier, seed):
     for b in (1, 2):
         top = 256 ** b // 8          # first length whose bit count no longer fits
         edge += [(b, ln) for ln in (top // 2 - 1, top // 2, top // 2 + 1, top - 2, top - 1, top, top + 1)]
+    # block size 3 (a 24-bit length block): around the 16-bit boundary of the bit count (8191 / 8192 bytes) and well above it
+    edge += [(3, 8190), (3, 8191), (3, 8192), (3, 8193), (3, 70000)]
     if tier == "thorough":
         edge += [(3, 2 ** 20 - 1), (3, 2 ** 20), (3, 2 ** 20 + 1)]
     for b, ln in edge:
